@@ -176,7 +176,7 @@ def rule_ctor(ctx, R):
 import itertools
 from .evalo import ev as evalo, Unknown
 from .paths import acyclic_paths as _acyclic, PathOriginsOv as _PO, simplify as _simp
-from .p_c09 import path_preds
+from .paths import path_preds
 
 A_P1 = lambda o: o == ("field", "pos", ("arg", 1))
 A_P2 = lambda o: o == ("field", "pos", ("arg", 2))
